@@ -496,8 +496,26 @@ def exhaustive(runner, depth):
         for op in h:
             impl.apply(op)
         chk.count()
-        if observe(impl.ls, SMALL_PROBES) != obs:
-            raise AssertionError('harness state copy differs from a replay from scratch: ' + repr(h))
+        got = observe(impl.ls, SMALL_PROBES)
+        if got != obs:
+            # the directory reached through the harness's state copies differs from the one the same
+            # history builds on a new LightSet: something the getters do not show (a cache, say)
+            # takes part in the state.  The exploration above can then not be trusted; the history
+            # is run once more from scratch with the oracle after every step, and the disagreement
+            # is recorded (a violation with this history as replay if the oracle finds one,
+            # otherwise "no longer shown to hold").
+            impl.fresh()
+            hh = []
+            for op in h:
+                hh.append(op)
+                try:
+                    impl.apply(op)
+                except Exception:  # noqa
+                    break
+                runner.check_state(hh, SMALL_PROBES, stepping=True, stream='exhaustive-from-scratch')
+            chk.disagreement('c13.state-copy', {'history': h}, 'through state copies: ' + repr(obs)[:300],
+                             'from scratch: ' + repr(got)[:300])
+            break
     counts['replayed_from_scratch'] = len(sample_leaves)
     return counts
 
